@@ -1,14 +1,17 @@
 import Rtcm.Lemmas.ReaderFile
 import Rtcm.Lemmas.Message
+import Rtcm.Lemmas.SockCons
 /-
   C01 — the reader delivers only intact, exactly-delimited RTCM3 frames.
   Streams are file-like with an *arbitrary* schedule of short and empty reads (`FStream.sched`):
   each `read(n)` may return all `n` bytes, fewer, or none.  Noise, foreign protocols, damaged or
   truncated frames and false sync bytes are just bytes of `data`: the theorems quantify over every
   byte string.
-  (Socket-backed streams: `SocketWrapper.read` returns `n` bytes or none — C11 — which is the
-  special case of schedules with only full and empty reads; the correspondence run exercises the
-  reader over sockets with timeouts.)
+  Socket-backed streams (no transfer encoding) with an *arbitrary* receive schedule — any
+  segmentation, timeouts, OS errors, close, any buffer size — are covered by the `…_socket`
+  theorems: the wrapper is a conservative stream (every read / readline hands out the next bytes
+  of what the connection still has to deliver), and the slice theorems are proved for every
+  conservative stream (Lemmas/ReaderCons.lean).
 -/
 namespace Rtcm
 
@@ -55,6 +58,44 @@ theorem C01_unparsed (T : Tables) (o : Opts) (resume : Bool) (data : Bytes) (sch
     (hparsed : o.parsed = false)
     (raw : Bytes) (p : Option Msg) (h : (raw, p) ∈ frames (run fileOps T o resume ⟨data, sched⟩)) : p = none :=
   ((run_file T o resume ⟨data, sched⟩).2 (raw, p) h).parsedOff hparsed
+
+/-- the same over a socket, for every receive schedule: the returned raws are non-overlapping
+    contiguous slices, in order, of the bytes the peer delivers -/
+theorem C01_contiguous_slices_in_order_socket (dec : Bytes → Bytes) (T : Tables) (o : Opts) (resume : Bool)
+    (sched : List Recv) (bufsize : Nat) :
+    Sliced (pendingData sched)
+      ((frames (run (sockOps dec) T o resume (Sock.init dec sched false bufsize))).map (·.1)) := by
+  have hc : (Sock.init dec sched false bufsize).chunked = false :=
+    (recv_spec dec ⟨[], [], sched, false, bufsize⟩ rfl).chunked
+  have := (run_sock dec T o resume _ hc).1
+  have hrem : (Sock.init dec sched false bufsize).remaining = pendingData sched := by
+    have := (recv_spec dec ⟨[], [], sched, false, bufsize⟩ rfl).remaining
+    simpa [Sock.init, Sock.remaining] using this
+  rwa [hrem] at this
+
+/-- … each a well-formed frame with a correct CRC, parsed from exactly its own bytes -/
+theorem C01_crc_and_payload_socket (dec : Bytes → Bytes) (T : Tables) (o : Opts) (resume : Bool)
+    (s : Sock) (hc : s.chunked = false)
+    (hparsed : o.parsed = true) (hval : o.validate &&& T.valcksum ≠ 0)
+    (raw : Bytes) (p : Option Msg) (h : (raw, p) ∈ frames (run (sockOps dec) T o resume s)) :
+    (∃ b0 b1 b2, raw[0]? = some b0 ∧ raw[1]? = some b1 ∧ raw[2]? = some b2
+      ∧ b0.toNat = 0xD3 ∧ b1.toNat / 4 = 0 ∧ raw.length = 6 + (b1.toNat * 256 + b2.toNat))
+    ∧ ∃ m, p = some m ∧ calcCrc24q raw = 0
+      ∧ m.payload = (raw.drop 3).take (raw.length - 6)
+      ∧ identity m.payload = .ok m.id := by
+  have hok := (run_sock dec T o resume s hc).2 (raw, p) h
+  refine ⟨?_, ?_⟩
+  · obtain ⟨b0, h0, hb0⟩ := hok.preamble
+    obtain ⟨b1, h1, hb1⟩ := hok.reserved
+    obtain ⟨b1', b2, h1', h2, hl⟩ := hok.len
+    have : b1' = b1 := by rw [h1] at h1'; injection h1' with e; exact e.symm
+    subst this
+    exact ⟨b0, b1', b2, h0, h1, h2, hb0, hb1, hl⟩
+  · obtain ⟨m, hp, hparse⟩ := hok.parsedOn hparsed
+    obtain ⟨h1, h2, h3⟩ := parse_ok T raw o.validate o.label m hparse
+    refine ⟨m, hp, h1 hval, ?_, ?_⟩
+    · rw [h2]; congr 1
+    · rw [h2]; exact h3
 
 /-- non-vacuity of `Sliced`: two frames with noise between them -/
 example : Sliced [9, 1, 2, 8, 8, 3, 4, 7] [[1, 2], [3, 4]] := by
